@@ -680,6 +680,10 @@ class Messenger(Connection):
             self._logger.debug('RX remain %d octets', len(self.__rx_buf))
 
             self.recv_message(pkt)
+            if self.get_app_socket() is None:
+                # closed while handling that message,
+                # what else was received is not acted on
+                return
 
     def recv_message(self, pkt):
         ''' Handle a received full message (or contact header).
